@@ -16,7 +16,9 @@ EXPLANATION = (
     "by Default (1 = lone end tag) and by the builder's finish with the produced/consumed byte count; (R08.5) the two block "
     "thresholds agree wherever a flush can happen; (R08.7) the extracted writer layout equals the reference layout of the "
     "pinned tree (rules/wire_layout.json) — a consistent reordering of writer AND reader (invisible to round-trip tests) "
-    "breaks interoperability with other builds and with the documented layout.")
+    "breaks interoperability with other builds and with the documented layout; (R08.8) decoded values and written bytes flow only "
+    "through reviewed value-preserving calls (constructors, checked views, container insertion) - a canonicalising or case-folding "
+    "conversion on one side of the wire is reported.")
 TRUSTED = ["to_le_bytes/from_le_bytes, Ipv4Addr/Ipv6Addr::octets widths", "the reference layout was read off the pinned tree and reviewed by hand"]
 ASSUMPTIONS = ["equality of decoded and original messages for all inputs and agreement with an independently written implementation are "
                "not decided (no second implementation to analyse; running one is another technique family)",
